@@ -420,14 +420,42 @@ CircSite == {Circ(Nm("Polyline", "site coordinates (vertices 1e6 units from the 
                       <<"loop beside the wire", RectLoop(1, 1, 5, 9, -1, 1)>>}}
 FluxSite == {NamedBox(Nm("Polyline", "site coordinates (vertices 1e6 units from the local origin), short collinear segments", q[1]), <<s>>, Id0, q[2]) : s \in SiteWires,
                q \in {<<"cell enclosing the wire", <<<<-9, 10>>, <<-9, 10>>, <<-5, 6>>>>>>, <<"cell beside one side", <<<<5, 9>>, <<-1, 3>>, <<1, 5>>>>>>}}
-MultiAndSite == FluxPairs \cup CircPairs \cup CircSite \cup FluxSite
+(* non-convex meshes: unions of lattice boxes (U- and L-shaped prisms, a box with a notch).  For a point inside one arm of the U a ray   *)
+(* towards the other arm crosses the surface three times; the U is built with its arms separated along each of the three local axes, so   *)
+(* that such points exist for all six axis directions (the ray used by the inside test is the implementation's business).                *)
+UBoxes == <<<<-6, -6, -2>>, <<6, -2, 2>>, <<-6, -2, -2>>, <<-2, 6, 2>>, <<2, -2, -2>>, <<6, 6, 2>>>>          \* base + two arms, open towards +y
+LBoxes == <<<<-6, -6, -2>>, <<6, -2, 2>>, <<-6, -2, -2>>, <<-2, 8, 2>>>>
+NotchBoxes == <<<<-6, -6, -4>>, <<6, 2, 4>>, <<-6, 2, -4>>, <<-2, 8, 4>>, <<2, 2, -4>>, <<6, 8, 4>>>>        \* box with a shallow notch in its +y face
+RotB(Q, lo, hi) == MoveBox(Q, Zero3, [lo |-> lo, hi |-> hi])
+RotBoxes(Q, bs) == [i \in DOMAIN bs |-> IF i % 2 = 1 THEN RotB(Q, bs[i], bs[i + 1]).lo ELSE RotB(Q, bs[i - 1], bs[i]).hi]
+UnionM(Q, bs, R, p, pol) == Src("TriangularMesh", R, p, <<>>, pol, RotBoxes(Q, bs))
+UCells == {<<"inside the arm at -x", <<-5, 1, -1>>, <<-3, 4, 1>>>>, <<"inside the arm at +x", <<3, 1, -1>>, <<5, 4, 1>>>>, <<"inside the base", <<-1, -5, -1>>, <<1, -3, 1>>>>,
+           <<"across the end face of the arm at -x", <<-5, 5, -1>>, <<-3, 8, 1>>>>, <<"across the end face of the arm at +x", <<3, 5, -1>>, <<5, 8, 1>>>>,
+           <<"across the inner side face of the arm at -x", <<-3, 1, -1>>, <<-1, 4, 1>>>>, <<"across the inner side face of the arm at +x", <<1, 1, -1>>, <<3, 4, 1>>>>,
+           <<"across the outer side face of the arm at +x", <<5, 1, -1>>, <<8, 4, 1>>>>, <<"across the top face of the arm at -x", <<-5, 1, 1>>, <<-3, 4, 3>>>>,
+           <<"in the gap between the arms", <<-1, 1, -1>>, <<1, 4, 1>>>>, <<"across the bottom of the gap", <<-1, -3, -1>>, <<1, 1, 1>>>>,
+           <<"gap and both inner faces", <<-3, 1, -1>>, <<3, 3, 1>>>>, <<"enclosing the body", <<-9, -8, -5>>, <<8, 9, 4>>>>}
+UQs == {IdM, Rz90, Ry90, MulMM(Rx90, Rz90)}            \* arms separated along x, y, z (and a fourth orientation)
+UPoses == {<<IdM, Zero3>>, <<Rx90, <<3, -2, 1>>>>}
+FluxNonConvex ==
+  UNION {UNION {{Flux(Nm("TriangularMesh", "non-convex U prism", c[1]), <<UnionM(Q, UBoxes, g[1], g[2], P1)>>, CartChart(g[1], g[2]), RotB(Q, c[2], c[3]).lo, RotB(Q, c[2], c[3]).hi, FFF)
+                  : c \in UCells} : Q \in UQs} : g \in UPoses}
+  \cup {Flux(Nm("TriangularMesh", "non-convex L prism", c[1]), <<UnionM(IdM, LBoxes, IdM, Zero3, P2)>>, Id0, c[2], c[3], FFF)
+          : c \in {q \in UCells : q[1] \in {"inside the arm at -x", "across the end face of the arm at -x", "across the inner side face of the arm at -x", "inside the base", "enclosing the body"}}}
+  \cup {Flux(Nm("TriangularMesh", "box with a notch", c[1]), <<UnionM(Q, NotchBoxes, IdM, Zero3, P1)>>, Id0, RotB(Q, c[2], c[3]).lo, RotB(Q, c[2], c[3]).hi, FFF)
+          : Q \in {IdM, Ry90}, c \in {<<"inside a lip", <<-5, 3, -1>>, <<-3, 6, 2>>>>, <<"inside the other lip", <<3, 3, -1>>, <<5, 6, 2>>>>, <<"in the notch", <<-1, 3, -1>>, <<1, 6, 2>>>>,
+                                     <<"across the notch bottom", <<-1, 1, -1>>, <<1, 4, 2>>>>, <<"across a lip end", <<3, 6, -1>>, <<5, 9, 2>>>>}}
+CircNonConvex == {Circ(Nm("TriangularMesh", "non-convex U prism", "loop through both arms and the gap"), <<UnionM(IdM, UBoxes, IdM, Zero3, P1)>>, Id0, e)
+                    : e \in {RectLoop(3, 1, -7, 7, 1, 4), RectLoop(2, 3, -1, 3, -7, 7), RectLoop(1, -4, 1, 8, -1, 3)}}
+MultiAndSite == FluxPairs \cup CircPairs \cup CircSite \cup FluxSite \cup FluxNonConvex \cup CircNonConvex
 Candidates == IF Prop = "C14" THEN C14Flux \cup C14CircChart \cup CartLk \cup CartBig \cup ThinCells \cup MultiAndSite ELSE C01Cells \cup C01Points \cup ThinCells \cup HarmPts \cup MultiAndSite
 \* Conditioning of the measurement (not part of the premise; it only selects which instances are worth integrating with a
 \* fixed-order rule): the cell is not a thin slab, and a cell that touches a body is not much larger than the body
 \* (otherwise single quadrature pieces would span decades of the field's variation and the instance would be unmeasurable).
 LinAxes(ch) == CASE ch.type = "cyl" -> {1, 3} [] ch.type = "sph" -> {1} [] OTHER -> {1, 2, 3}
 BodyScale(s) ==
-  CASE s.cls \in {"Cuboid", "TriangularMesh"} -> SetMin({s.dim[1], s.dim[2], s.dim[3]})
+  CASE UnionMesh(s) -> SetMin(UNION {{UBox(s, i).hi[k] - UBox(s, i).lo[k] : k \in 1..3} : i \in 1..UCount(s)})
+    [] s.cls \in {"Cuboid", "TriangularMesh"} -> SetMin({s.dim[1], s.dim[2], s.dim[3]})
     [] s.cls = "Cylinder" -> Min2(s.dim[1], s.dim[2])
     [] s.cls = "CylinderSegment" -> Min2(s.dim[2] - s.dim[1], s.dim[3])
     [] s.cls \in {"Sphere", "Circle"} -> s.dim[1]
